@@ -105,10 +105,15 @@ class Ctx:
 
 
 def load_findings():
-  if not os.path.exists(FINDINGS):
-    return []
-  with open(FINDINGS) as fh:
-    return json.load(fh).get("findings", [])
+  """known_findings.json plus the per-property fragments findings_<pid>.json (all committed, never written at run time)."""
+  import glob
+  out = []
+  for path in [FINDINGS] + sorted(glob.glob(os.path.join(VERIF, "findings_*.json"))):
+    if not os.path.exists(path):
+      continue
+    with open(path) as fh:
+      out.extend(json.load(fh).get("findings", []))
+  return out
 
 
 def _match(entry, v):
